@@ -61,9 +61,47 @@ def extract(repo):
     return found
 
 
+SIM_LOOPS = {
+    ("_elastic.py", "Elastic"): ["K_e = Operators.Bilinear.LinearizedElasticity(groupElem, self.material.C)", "M_e = Operators.Bilinear.UV(groupElem, self.rho, dof_n=self.dim)",
+                                 "if self.dim == 2:\n    thickness = self.material.thickness\n    K_e *= thickness\n    M_e *= thickness",
+                                 "C_e = self.__coefK * K_e + self.__coefM * M_e", "out[groupElem] = (K_e, C_e, M_e, None)"],
+    ("_thermal.py", "Thermal"): ["K_e = Operators.Bilinear.GradUGradV(groupElem, coef=thermalModel.k)", "coef = FeArray.broadcast(self.rho, Ne, nPg) * FeArray.broadcast(thermalModel.c, Ne, nPg)",
+                                 "C_e = Operators.Bilinear.UV(groupElem, coef=coef, dof_n=1)",
+                                 "if self.mesh.dim == 2:\n    thickness = thermalModel.thickness\n    K_e *= thickness\n    C_e *= thickness", "out[groupElem] = (K_e, C_e, None, None)"],
+}
+
+
+def extract_loops(repo):
+    """the body of the loop over element groups of `Construct_local_matrix_system`: every group's matrices are built AND scaled
+    inside the loop (a statement moved out of it acts on the last group only)"""
+    found = {}
+    for (fname, cls), lines in SIM_LOOPS.items():
+        tree = ast.parse(open(os.path.join(repo, "EasyFEA", "Simulations", fname), encoding="utf-8").read())
+        fn = _fn(tree, "Construct_local_matrix_system", cls)
+        loops = [n for n in fn.body if isinstance(n, ast.For) and ast.unparse(n.iter) == "self.mesh.Get_list_groupElem()" and ast.unparse(n.target) == "groupElem"]
+        if len(loops) != 1:
+            raise Refuse(f"{cls}.Construct_local_matrix_system: expected one loop over self.mesh.Get_list_groupElem(), found {len(loops)}")
+        body = [ast.unparse(st) for st in loops[0].body]
+        missing = [l for l in lines if l not in body]
+        if missing:
+            raise Refuse(f"{cls}.Construct_local_matrix_system: statement(s) not found in the loop over the element groups: {missing}")
+        after = [ast.unparse(st) for st in fn.body[fn.body.index(loops[0]) + 1:]]
+        if any("*=" in a for a in after):
+            raise Refuse(f"{cls}.Construct_local_matrix_system: in-place scaling after the loop over the element groups: {after}")
+        found[cls + ".groupLoop"] = lines
+    return found
+
+
 def write(repo: str, outdir: str) -> dict:
     d = extract(repo)
+    loops = extract_loops(repo)
     os.makedirs(outdir, exist_ok=True)
+    q_ = lambda t: '"' + t.replace('"', "'").replace("\n", "\\n") + '"'  # noqa: E731
+    lrows = ",\n  ".join("(" + q_(k) + ", [" + ", ".join(q_(x) for x in v) + "])" for k, v in loops.items())
+    _write_if_changed(os.path.join(outdir, "Loops.lean"),
+                      "-- GENERATED by tools/py2lean/gen_c02.py from /repo/EasyFEA/Simulations/_elastic.py, _thermal.py — do not edit\nnamespace EasyFEAVerif.Gen.C02\n\n"
+                      "/-- the body of the loop over the element groups in `Construct_local_matrix_system` (matched against the source) -/\n"
+                      f"def groupLoops : List (String × List String) := [\n  {lrows}]\n\nend EasyFEAVerif.Gen.C02\n")
     rows = ",\n  ".join('("' + k + '", [' + ", ".join('"' + l.replace('"', "'") + '"' for l in v) + "])" for k, v in d.items())
     txt = ("-- GENERATED by tools/py2lean/gen_c02.py from /repo/EasyFEA/FEM/Operators/Bilinear.py, _group_elem.py, _linalg.py — do not edit\n"
            "namespace EasyFEAVerif.Gen.C02\n\n/-- the statements that define the element stiffness, diffusion and mass matrices -/\n"
